@@ -51,17 +51,23 @@ def load_prop(pid):
     return mod.PROP
 
 
+FORK_SEM = None      # global slot semaphore for process-forking path exploration (set before the pool starts)
+
+
 def _verify_worker(job):
     pid, func, extra_requires = job
     try:
         from pyvc.engine import Engine
         from pyvc import contracts as C, smt
+        from pyvc.forking import ForkCtl
         prop = load_prop(pid)
         c = C.REGISTRY[func]
         saved = list(c.requires)
         if extra_requires:
             c.requires = saved + list(extra_requires)
         E = Engine(C.REGISTRY)
+        if FORK_SEM is not None and os.environ.get('PYVC_NOFORK') != '1':
+            E.fork_ctl = ForkCtl(FORK_SEM)
         t0 = time.time()
         try:
             res = C.verify(E, c)
@@ -108,10 +114,13 @@ def run_property(pid, tier='quick', update_ledger=False, verbose=False):
     seed = int(os.environ.get('VERIF_SEED', '0') or 0)
     prop = load_prop(pid)
     jobs = [(pid, c.key, None) for c in prop.contracts]
-    nproc = min(16, max(1, len(jobs)))
+    nproc = min(8, max(1, len(jobs)))
     results = []
     if jobs:
+        global FORK_SEM
         ctx = mp.get_context('fork')
+        FORK_SEM = ctx.BoundedSemaphore(max(2, (os.cpu_count() or 4) - 2))
+        # largest functions first
         with ctx.Pool(nproc) as pool:
             results = pool.map(_verify_worker, jobs, chunksize=1)
     crashed = [r for r in results if not r['ok']]
